@@ -676,6 +676,36 @@ func (g *G) MacroProgram() *m.Program {
 		}
 		main.Body = append(main.Body, m.NText(";"))
 	}
+	// the library named by an expression that changes from one execution of
+	// the import tag to the next: every call reaches the library imported last
+	if g.intn("dynimport", 0, 2) == 0 {
+		lib2 := &m.Tpl{Name: "lib2"}
+		for _, lm := range libMacros {
+			n := &m.N{K: "macro", S: lm.name, Body: []*m.N{m.NText("L2." + lm.name + "(")}}
+			for k := 0; k < lm.params; k++ {
+				n.Names = append(n.Names, fmt.Sprintf("p%d", k))
+				n.Body = append(n.Body, m.NPrint(m.EName(fmt.Sprintf("p%d", k))), m.NText(";"))
+			}
+			n.Body = append(n.Body, whoCall(), m.NText(")"))
+			lib2.Body = append(lib2.Body, n)
+		}
+		p.Tpls = append(p.Tpls, lib2)
+		order := pickS(g, "dynorder", [][]string{{"lib", "lib2"}, {"lib2", "lib"}, {"lib", "lib2", "lib"}, {"lib2", "lib2", "lib"}})
+		var names []*m.E
+		for _, o := range order {
+			names = append(names, m.EStr(o))
+		}
+		lm := pickS(g, "dynlm", libMacros)
+		args := []*m.E{}
+		for i, k := 0, g.intn("dynna", 0, 3); i < k; i++ {
+			args = append(args, g.incLit())
+		}
+		body := []*m.N{{K: "import", X: m.EName("f"), S: "dyn"}, m.NPrint(&m.E{K: "mcall", S: lm.name, T: "alias", U: "dyn", A: args})}
+		if g.flip("dynfrom") {
+			body = append(body, &m.N{K: "from", X: m.EName("f"), Pairs: [][2]string{{lm.name, "dynf"}}}, m.NText("="), m.NPrint(&m.E{K: "mcall", S: lm.name, T: "from", U: "dynf", A: args}))
+		}
+		main.Body = append(main.Body, &m.N{K: "for", S: "f", X: m.EArr(names...), Body: body}, m.NText(";"))
+	}
 	// the same macro through several forms with the same arguments
 	if len(libMacros) > 0 && g.flip("sameforms") {
 		lm := libMacros[0]
@@ -711,6 +741,18 @@ func (g *G) MacroProgram() *m.Program {
 			switch n.K {
 			case "macro", "import", "from":
 				top = append(top, n)
+			case "set":
+				// the result of a macro call may be assigned outside the blocks,
+				// directly or under a condition, and printed inside them
+				if n.X != nil && n.X.K == "mcall" && g.intn("hoist", 0, 1) == 0 {
+					if g.flip("hoistif") {
+						top = append(top, &m.N{K: "if", X: m.EBool(true), Body: []*m.N{n}})
+					} else {
+						top = append(top, n)
+					}
+				} else {
+					inBlock = append(inBlock, n)
+				}
 			default:
 				inBlock = append(inBlock, n)
 			}
